@@ -3,6 +3,7 @@
 
 mod bench;
 mod c06;
+mod c15;
 mod engine;
 mod progs;
 mod shim;
@@ -22,6 +23,7 @@ fn main() {
     let tier = Tier::parse(&args[2]).unwrap_or_else(|| mcx::machinery("bad tier"));
     match args[1].as_str() {
         "C06" => c06::run(tier),
+        "C15" => c15::run(tier),
         other => mcx::machinery(format!("unknown property {other}")),
     }
 }
